@@ -11,6 +11,7 @@ package main
 
 import (
 	"go/types"
+	"math"
 
 	"golang.org/x/tools/go/ssa"
 )
@@ -133,4 +134,43 @@ func (c *Ctx) stdInterface(pkgPath, name string) *types.Interface {
 		}
 	}
 	return nil
+}
+
+// checkAutoLoadReadsWholeLines: rule C18.R6 (shared with C14).
+//
+// The state file has one binding per line and SaveGlobals writes named functions whatever their length (the
+// length limit is for name=value lines, and the file may have been written under another limit), so the reader
+// cannot assume a maximum: the bufio.Scanner of repl.AutoLoad gets its buffer limit from Buffer(_, math.MaxInt)
+// on every path. With a smaller limit the scanner stops at the first longer line and every binding after it is
+// silently dropped; the next auto-save then writes that truncated state over the file.
+func (c *Ctx) checkAutoLoadReadsWholeLines(r *Report, rule string) {
+	fn := c.SSAFn(c.Fn("repl", "AutoLoad"))
+	n := 0
+	scans := 0
+	eachInstr(fn, func(in ssa.Instruction) {
+		call, ok := in.(*ssa.Call)
+		if !ok {
+			return
+		}
+		obj := calleeObj(call)
+		if obj == nil || obj.Pkg() == nil || obj.Pkg().Path() != "bufio" {
+			return
+		}
+		switch obj.Name() {
+		case "Scan":
+			scans++
+		case "Buffer":
+			n++
+			args := call.Common().Args
+			k, isK := constInt(args[len(args)-1])
+			r.Check(isK && k == math.MaxInt, rule, ssaFuncName(fn), "the line reader has no length limit", c.Pos(call.Pos()),
+				"the scanner that reads the state file line by line is given a finite line limit (or one computed at run time): a saved function or value longer than it ends the scan, the bindings after it are not restored, and the next auto-save replaces the file with that partial state")
+		}
+	})
+	if scans > 0 && n == 0 {
+		r.Fail(rule, ssaFuncName(fn), "the line reader has no length limit", c.Pos(fn.Pos()), "AutoLoad scans the state file with the default 64 KiB line limit of bufio.Scanner: a longer saved line ends the scan and the bindings after it are lost")
+	}
+	if scans == 0 {
+		r.OkWhy(rule, ssaFuncName(fn), "the state file is not read through a line scanner", c.Pos(fn.Pos()), "no bufio.Scanner in AutoLoad")
+	}
 }
